@@ -900,6 +900,38 @@ def install_hooks():
         return orig_init(self, name, mode, *a, **kw)
     h5py.File.__init__ = file_init
 
+    # ---- blocking waits on worker sentinels (multiprocessing.connection.wait): a parked worker never exits by
+    # itself, so a parent that blocks on the sentinels of simulated workers would wait forever.  The wait is a
+    # yield point at which the scheduler releases one of the waited-for workers at a time until at least one has
+    # exited; every worker that has exited by then is reported ready (and its exit becomes visible).
+    import multiprocessing.connection as _mpc
+    orig_wait = _mpc.wait
+
+    def sim_conn_wait(object_list, timeout=None):
+        kk = KERNEL
+        if not kk.active or kk.in_child or not kk.sched_stack:
+            return orig_wait(object_list, timeout)
+        sch = kk.sched_stack[-1]
+        by_sentinel = {}
+        for p in sch.procs:
+            try:
+                by_sentinel[RealProcess.sentinel.fget(p)] = p
+            except Exception:
+                pass
+        mine = [(o, by_sentinel[o]) for o in object_list if not hasattr(o, 'fileno') and o in by_sentinel]
+        if not mine:
+            return orig_wait(object_list, timeout)
+        while True:
+            done = [o for o, p in mine if p._sim_state == 'exited']
+            if done:
+                for o, p in mine:
+                    if p._sim_state == 'exited' and not p._sim_visible:
+                        sch._make_visible(p)
+                return done
+            cand = [p for o, p in mine if p._sim_state != 'exited']
+            sch.release(cand[sch._draw(len(cand))] if len(cand) > 1 else cand[0])
+    _mpc.wait = sim_conn_wait
+
     orig_create = h5py.Group.create_dataset
 
     def create_dataset(self, name, *a, **kw):
